@@ -20,6 +20,8 @@ from harness.world.server import World
 
 SCRIPTS = NORMAL_SCRIPTS[:7] + UNSPENDABLE_SCRIPTS[:1]
 
+HONOURS_DEADLINE = True      # main loops stop generating when common.out_of_time()
+
 
 class History:
     def __init__(self, res, seed, idx, tier, want, limit=None):
